@@ -1,14 +1,14 @@
 /* C18: the string buffer cache never aliases live buffers and gives everything back.
  *
  * The cache under test is the real SimpleStringInternalCache; its underlying allocator is a
- * recording allocator that serves blocks from a static arena and keeps a LEDGER (below).
+ * recording allocator that serves blocks from static pools and keeps a LEDGER (h18_ledger.h).
  * The oracle is a SHADOW MAP of the buffers the client holds, written from the property text:
  *   - memory handed out never overlaps a buffer still in use and has at least the requested size;
  *   - a released buffer is reused only for requests of its own size class (32/64/96/128/256, larger: not cached);
  *   - after clearCache every released buffer, after clearAll... every block obtained from the
  *     underlying allocator, has been returned to it exactly once and with its size;
  *   - releasing a buffer the cache does not know gives a one-time warning and corrupts nothing.
- * Histories: a concrete number of operations per obligation, every operation's kind and data symbolic. */
+ * Histories: one obligation per script of operation kinds (body_script), all data symbolic. */
 #include "h18_ledger.h"
 
 /* ------------------------------------------------------------ shadow map of the client's buffers */
@@ -128,7 +128,7 @@ static void body_script(const char* sc, const int N) {
   WITNESS("end");
 }
 #define SCRIPT(s) HARNESS(harness_##s) { body_script(#s, (int)sizeof(#s) - 1); }
-/* every order of requests and releases of length 4 (a release before any request = of a foreign buffer) */
+/* all 8 orders of 4 requests/releases that start with a request; 3 that start with the release of a foreign buffer */
 SCRIPT(AAAA) SCRIPT(AAAD) SCRIPT(AADA) SCRIPT(AADD) SCRIPT(ADAA) SCRIPT(ADAD) SCRIPT(ADDA) SCRIPT(ADDD)
 SCRIPT(DAAD) SCRIPT(DADA) SCRIPT(DDAD)
 /* clear operations in between */
@@ -136,7 +136,7 @@ SCRIPT(ADCA) SCRIPT(AADC) SCRIPT(ACDA) SCRIPT(AXAD) SCRIPT(ADXA) SCRIPT(AAXD) SC
 /* five operations */
 SCRIPT(AADAD) SCRIPT(AADDA) SCRIPT(ADADA) SCRIPT(AAADD) SCRIPT(ADCAD) SCRIPT(AAXAD)
 /* symbolic kinds */
-SCRIPT(ooo) SCRIPT(oooo) SCRIPT(ooooo) SCRIPT(ooCoo) SCRIPT(ooXoo)
+SCRIPT(ooo) SCRIPT(oooo) SCRIPT(ooCoo) SCRIPT(ooXoo)
 
 /* the client fills the cache with N buffers of ONE class (sizes symbolic inside it), releases them in a symbolic
  * order (head, interior, tail of the used list) and asks again: covers the deepest lists */
